@@ -370,7 +370,8 @@ def _sorted_hook(eng, st, v, kw, node):
         inv = z3.Function(fresh_name("perminv"), I, I)
         st.assume(n == LI.len(v.t))
         st.assume(z3.ForAll([a], z3.Implies(z3.And(0 <= a, a < n), z3.And(0 <= perm(a), perm(a) < n, LI.at(res.t)[a] == LI.at(v.t)[perm(a)], inv(perm(a)) == a))))
-        st.assume(z3.ForAll([b], z3.Implies(z3.And(0 <= b, b < n), z3.And(0 <= inv(b), inv(b) < n, perm(inv(b)) == b))))
+        st.assume(z3.ForAll([b], z3.Implies(z3.And(0 <= b, b < n), z3.And(0 <= inv(b), inv(b) < n, perm(inv(b)) == b,
+                                                                          LI.at(res.t)[inv(b)] == LI.at(v.t)[b]))))
         st.assume(z3.ForAll([a, b], z3.Implies(z3.And(0 <= a, a < b, b < n),
                                                (LI.at(res.t)[a] >= LI.at(res.t)[b]) if rev else (LI.at(res.t)[a] <= LI.at(res.t)[b]))))
         return res
